@@ -12,6 +12,7 @@ import TxV.Drv.Cfg
 import TxV.Drv.TorState
 import TxV.Drv.Prio
 import TxV.Drv.Launch
+import TxV.Drv.Listen
 open TxV.Drv
 
 def main (args : List String) : IO UInt32 := do
@@ -31,5 +32,6 @@ def main (args : List String) : IO UInt32 := do
   | ["TorState"] => loop stdin stdout ({} : TxV.TorState.St) TorState.step; return 0
   | ["Prio"] => loop stdin stdout ({} : TxV.Attacher.St) Prio.step; return 0
   | ["Launch"] => loop stdin stdout ({} : TxV.Launch.St) Launch.step; return 0
+  | ["Listen"] => loop stdin stdout () Listen.step; return 0
   | ["Ctl"] => loop stdin stdout ({} : Ctl.St) Ctl.step; return 0
   | _ => IO.eprintln "usage: driver <property-id>"; return 2
